@@ -160,6 +160,7 @@ package syntax
 //@   tags C14, C10
 //@   assigns fresh-only
 //@   requires joiner != nil && validBytes(subject) && validSet(joiner)
+//@   requires[C10] kind: joiner is rel.Bytes || joiner is rel.EmptySet
 //@   loop 0 invariant fr: fresh(result)
 
 //@ func stdSeqRepeat(ctx, arg)
